@@ -43,7 +43,7 @@ func NewAdminController(iam auth.IAMService, be backend.Backend, l s3log.AuditLo
 
 func (c AdminController) CreateUser(ctx *fiber.Ctx) error {
 	var usr auth.Account
-	err := xml.Unmarshal(ctx.Body(), &usr)
+	err := xml.Unmarshal(ctx.BodyRaw(), &usr)
 	if err != nil {
 		return SendResponse(ctx, s3err.GetAPIError(s3err.ErrMalformedXML),
 			&MetaOpts{
@@ -92,7 +92,7 @@ func (c AdminController) UpdateUser(ctx *fiber.Ctx) error {
 	}
 
 	var props auth.MutableProps
-	if err := xml.Unmarshal(ctx.Body(), &props); err != nil {
+	if err := xml.Unmarshal(ctx.BodyRaw(), &props); err != nil {
 		return SendResponse(ctx, s3err.GetAPIError(s3err.ErrMalformedXML),
 			&MetaOpts{
 				Logger: c.l,
